@@ -170,6 +170,9 @@ func (r *Run) Finish() int {
 		return r.Obls[i].Key < r.Obls[j].Key
 	})
 	vdir := verifDir()
+	if o := os.Getenv("BCV_OUT"); o != "" {
+		vdir = o
+	}
 	os.MkdirAll(filepath.Join(vdir, "evidence"), 0o755)
 	os.MkdirAll(filepath.Join(vdir, "replay"), 0o755)
 	// remove stale replay files of this property
